@@ -225,15 +225,17 @@ Proof. exact Sylt.Types.ErrLoc.typecheck_errors_located. Qed.
 
 (* type_first_error_is_first.  The top level is checked statement by statement, in the order check_order: since /repo
    3c0758d the type declarations (blobs and enums) once, in the order name resolution and dependency ordering left them
-   in, then all the statements in that order (check_order stmts = filter is_type_decl stmts ++ stmts; for a program
+   in -- since /repo 58eff66 each after the declarations it mentions (DeclOrder.type_decl_order) --, then all the
+   statements in that order (check_order stmts = type_decl_order stmts ++ stmts; for a program
    without type declarations it is stmts: C15_type_check_order).  If the statements l1 of that sequence check (state
    s1) and the next one fails, the type checker returns exactly that error, whatever follows; conversely a returned
    error is the error of some statement of the sequence all of whose predecessors checked, or comes from the check of
    `start` after all of them checked. *)
 Theorem C15_type_check_order : forall stmts,
-  Sylt.Types.TcInv.check_order stmts = (filter Sylt.Types.Tc.is_type_decl stmts ++ stmts)%list /\
+  Sylt.Types.TcInv.check_order stmts = (Sylt.Types.DeclOrder.type_decl_order stmts ++ stmts)%list /\
+  (forall d, In d (Sylt.Types.DeclOrder.type_decl_order stmts) -> In d stmts /\ Sylt.Types.Tc.is_type_decl d = true) /\
   (forallb (fun st => negb (Sylt.Types.Tc.is_type_decl st)) stmts = true -> Sylt.Types.TcInv.check_order stmts = stmts).
-Proof. intros stmts. split; [reflexivity|apply Sylt.Types.TcInv.check_order_no_decl]. Qed.
+Proof. intros stmts. split; [reflexivity|]. split; [apply Sylt.Types.TcInv.type_decl_order_In|apply Sylt.Types.TcInv.check_order_no_decl]. Qed.
 
 Theorem C15_type_first_error_is_first : forall fuel vars stmts l1 st l2 u s1 e more,
   let kinds := Sylt.Types.Tc.kinds_of vars 1 (FMapPositive.PositiveMap.empty Sylt.Syntax.Resolved.varkind) in
